@@ -302,7 +302,13 @@ def _user_functions():
     @xl.validate_args
     def ADD_ONE(number: T.XlNumber) -> T.XlNumber:
         return number + 1
-    return {'ADDONE': ADDONE, 'SHOUT': SHOUT, 'ADD.ONE': ADD_ONE}
+    @xl.validate_args
+    def ADDONE2(number: T.XlNumber, step: T.XlNumber = 1) -> T.XlNumber:
+        return number + step
+    return {'ADDONE': ADDONE, 'SHOUT': SHOUT, 'ADD.ONE': ADD_ONE,
+            # registered under the NAME ADDONE by history step S: the same
+            # name with another parameter list
+            'ADDONE/2': ADDONE2}
 
 
 def _register(style, name, func):
@@ -338,6 +344,8 @@ HIST_CELLS = {'Sheet1!A1': '=ADDONE("1")', 'Sheet1!A2': '=addone(TRUE)',
               'Sheet1!A3': '=_xlfn.ADDONE(B9)'}
 HIST_WANT = {'Sheet1!A1': 'num:2.0', 'Sheet1!A2': 'num:2.0',
              'Sheet1!A3': 'num:1.0'}
+# only the two-parameter version (history step S) can answer this one
+HIST_CELL_V2 = ('Sheet1!A4', '=ADDONE(2,"3")', 'num:5.0')
 
 
 def run_history_case(inp, ctx):
@@ -348,7 +356,9 @@ def run_history_case(inp, ctx):
     _unregister_all()
     try:
         funcs = _user_functions()
-        model = lib.compile_dict(HIST_CELLS)
+        cells = dict(HIST_CELLS)
+        cells[HIST_CELL_V2[0]] = HIST_CELL_V2[1]
+        model = lib.compile_dict(cells)
         # Evaluators may have been created earlier in the process: every
         # history starts after one (so that the outcome of a case does not
         # depend on what ran before it in the same interpreter).
@@ -361,9 +371,12 @@ def run_history_case(inp, ctx):
         for step, op in enumerate(inp['hist']):
             if op == 'R':
                 _register(inp['style'], 'ADDONE', funcs['ADDONE'])
-                registered = True
+                registered = 1
+            elif op == 'S':
+                _register(inp['style'], 'ADDONE', funcs['ADDONE/2'])
+                registered = 2
             elif op == 'M':
-                model = lib.compile_dict(HIST_CELLS)
+                model = lib.compile_dict(cells)
                 ev = None
             elif op == 'C':
                 ev = lib.Evaluator(model)
@@ -378,6 +391,10 @@ def run_history_case(inp, ctx):
                         wants.append('%d:%s=%s' % (step, addr[-2:],
                                                    HIST_WANT[addr]))
                         judged += 1
+                if ev_sees == 2:
+                    o = lib.eval_addr(model, HIST_CELL_V2[0], ev)
+                    obs.append('%d:A4=%s' % (step, o))
+                    wants.append('%d:A4=%s' % (step, HIST_CELL_V2[2]))
         if not judged:
             ctx.skip('history-without-judged-evaluate (evaluator older than '
                      'the registration: property silent)')
@@ -628,11 +645,11 @@ STYLES = ('decorator', 'named', 'method')
 def gen_hist(shard, tier):
     style = shard['name']
     maxlen = 6 if tier == 'thorough' else 5
-    alphabet = 'RCEM' if tier == 'thorough' else 'RCE'
+    alphabet = 'RSCEM' if tier == 'thorough' else 'RSCE'
     for n in range(1, maxlen + 1):
         for hist in itertools.product(alphabet, repeat=n):
             h = ''.join(hist)
-            if 'E' not in h or 'C' not in h or 'R' not in h:
+            if 'E' not in h or 'C' not in h or not ('R' in h or 'S' in h):
                 continue
             if tier == 'thorough' and n == 6 and h.count('M') > 1:
                 continue
